@@ -1,5 +1,7 @@
 import Gpc.Proofs.Printf
 import Gpc.Proofs.Print
+import Gpc.Proofs.FloatPlan
+import Gpc.Proofs.FloatSpecWF
 /-!
 # C09 — formatted output equals the C standard's
 
@@ -166,6 +168,41 @@ theorem float_text_partial (s : Spec) (bits : Nat)
   cases hsp : (floatParts s bits).2.2 with
   | true => simp [hsp, PF.planText, PF.Emit.text]
   | false => simp [hsp, h hsp]
+
+/-- **C09, floating point conversions: the output steps spell the digits.**  For every finite value's
+text that is a well-formed number (`BodyWF`: digits, at most one point, an integer part without
+leading zeros or one leading digit before an exponent), the model's plan of output steps — `pf_utoa`
+for the first block, blocks of nine digits, `pf_pad` for leading fraction zeros, the `d.ddd` block,
+the exponent — spells exactly that text, so the conversion's text is the specification's.  What
+remains outside the theorem is that the real code's digit generation (Ryu) yields the
+specification's digits, which the correspondence run compares on every case. -/
+theorem float_text_of_wf (s : Spec) (bits : Nat)
+    (h : (floatParts s bits).2.2 = false → BodyWF (floatParts s bits).2.1) :
+    floatModelText s bits = fmtFloat s bits :=
+  float_text_partial s bits (fun hs => planText_bodyPlan _ (h hs))
+
+/-- **C09, `%f` and `%F` for every value, precision, width and flag set**: the specification's fixed
+notation is a well-formed number (`fixedText_wf`), so the model's text is the specification's with no
+side condition. -/
+theorem float_text_fixed (s : Spec) (bits : Nat) (hc : s.conv = 'f' ∨ s.conv = 'F') :
+    floatModelText s bits = fmtFloat s bits := by
+  apply float_text_of_wf
+  intro hfin
+  unfold floatParts at hfin ⊢
+  simp only at hfin ⊢
+  cases hsp : (decode bits).special with
+  | some nan => rw [hsp] at hfin; simp at hfin
+  | none => simp only [if_pos hc]; exact fixedText_wf _ _ _ _
+
+/-- non-vacuity: the shapes the conversions produce are well-formed (`f`, `e`, `g` notations) -/
+example : BodyWF (ascii "3.14") ∧ BodyWF (ascii "0.001000") ∧ BodyWF (ascii "1234567890123") ∧
+    BodyWF (ascii "0") ∧ BodyWF (ascii "3.") ∧ BodyWF (ascii "1.500000e+10") ∧ BodyWF (ascii "1e-05") ∧
+    BodyWF (ascii "9.E+300") := by
+  decide
+
+/-- and a text with a leading zero in a long integer part is not (its first block would be re-spelled) -/
+example : ¬ BodyWF (ascii "007") := by
+  decide
 
 /-- **C09, print family.**  Each argument of the type-directed print calls is rendered as its default
 conversion: integers as `%d` / `%u` of their width, floating point as `%g`, characters as `%c`,
